@@ -82,10 +82,13 @@ MUTANTS = [
      "                current.expire_time_millis = pointer.get_expiration_time(100)\n", ""),
     ("c15-no-size-guard", "C15", "_listener.py",
      "        if data_len > _MAX_MSG_ABSOLUTE:", "        if data_len > 10 * _MAX_MSG_ABSOLUTE:"),
-    # (removing the NamePartTooLongException containment of the legacy-unicast echo became equivalent once the decoder
-    #  rejected names with a label that cannot be encoded again, bbcd09e; the decoder check is the mutant now)
-    ("c15-unencodable-label-accepted", "C15", "_protocol/incoming.py",
-     "        if not name.isascii():", "        if False and not name.isascii():"),
+    ("c15-echo-containment-removed", "C15", "_handlers/query_handler.py",
+     "            except NamePartTooLongException:", "            except ZeroDivisionError:"),
+    ("c15-unencodable-known-answer", "C15", "_services/browser.py",
+     "            if not record.is_stale(now_millis) and name_can_be_encoded(cast(DNSPointer, record).alias)",
+     "            if not record.is_stale(now_millis)"),
+    ("c15-unencodable-host-asked", "C15", "_services/info.py",
+     "        if not name_can_be_encoded(name):\n            return\n", ""),
     ("c16-no-duplicate-guard", "C16", "_listener.py",
      "            self.data == data\n            and (now - _DUPLICATE_PACKET_SUPPRESSION_INTERVAL) < self.last_time",
      "            False\n            and (now - _DUPLICATE_PACKET_SUPPRESSION_INTERVAL) < self.last_time"),
